@@ -72,13 +72,12 @@ impl DualConnector {
         right_feat_ids_tmp: &[Vec<U31>],
         left_feat_ids_tmp: &[Vec<U31>],
         matrix_indices: &[usize],
-        feat_template_size: usize,
         scorer: &Scorer,
     ) -> (MatrixConnector, Vec<u16>, Vec<u16>) {
         let generate_feature_map = |feat_ids_tmp: &[Vec<U31>]| {
             let mut conn_id_map = vec![0];
             let mut feats_map = HashMap::new();
-            feats_map.insert(vec![U31::default(); feat_template_size - SIMD_SIZE], 0);
+            feats_map.insert(vec![U31::default(); matrix_indices.len()], 0);
             for row in feat_ids_tmp {
                 let mut feat_ids = vec![];
                 for &idx in matrix_indices {
@@ -114,17 +113,24 @@ impl DualConnector {
         raw_indices: &[usize],
         scorer_builder: &mut ScorerBuilder,
     ) -> (Vec<U31>, Vec<U31>) {
+        // Every id owns exactly SIMD_SIZE lanes (see `cost()`); with fewer than SIMD_SIZE
+        // feature templates the remaining lanes are invalid.
+        let num_pads = SIMD_SIZE - raw_indices.len();
         let mut right_feat_ids = vec![U31::default(); raw_indices.len()];
         let mut left_feat_ids = vec![U31::default(); raw_indices.len()];
+        right_feat_ids.resize(SIMD_SIZE, INVALID_FEATURE_ID);
+        left_feat_ids.resize(SIMD_SIZE, INVALID_FEATURE_ID);
         for row in right_feat_ids_tmp {
             for &idx in raw_indices {
                 right_feat_ids.push(*row.get(idx).unwrap_or(&INVALID_FEATURE_ID));
             }
+            right_feat_ids.resize(right_feat_ids.len() + num_pads, INVALID_FEATURE_ID);
         }
         for row in left_feat_ids_tmp {
             for &idx in raw_indices {
                 left_feat_ids.push(*row.get(idx).unwrap_or(&INVALID_FEATURE_ID));
             }
+            left_feat_ids.resize(left_feat_ids.len() + num_pads, INVALID_FEATURE_ID);
         }
         let right_used_feats: HashSet<_> = right_feat_ids.iter().cloned().collect();
         let left_used_feats: HashSet<_> = left_feat_ids.iter().cloned().collect();
@@ -179,7 +185,6 @@ impl DualConnector {
             &right_feat_ids_tmp,
             &left_feat_ids_tmp,
             &matrix_indices,
-            feat_template_size,
             &scorer,
         );
         let (right_feat_ids, left_feat_ids) = Self::create_raw_connector(
